@@ -42,7 +42,7 @@ pub fn judge_exec(l: &Layout, progs: &[Vec<POp>], ex: &ExecOut) -> Result<bool, 
                 }
             }
             // did a write to the same key by somebody else overlap this lookup?
-            if ex.hist.iter().any(|o| o.tid != h.tid && o.pop.key % 3 == h.pop.key % 3 && matches!(o.pop.kind, PKind::Set | PKind::Put | PKind::Ensure | PKind::Promote | PKind::Replace) && o.call_seq < h.ret_seq && h.call_seq < o.ret_seq) {
+            if ex.hist.iter().any(|o| o.tid != h.tid && o.pop.key % 3 == h.pop.key % 3 && matches!(o.pop.kind, PKind::Set | PKind::Put | PKind::Ensure | PKind::Promote | PKind::Replace | PKind::SetOtherFs) && o.call_seq < h.ret_seq && h.call_seq < o.ret_seq) {
                 overlapped = true;
             }
         }
@@ -51,7 +51,7 @@ pub fn judge_exec(l: &Layout, progs: &[Vec<POp>], ex: &ExecOut) -> Result<bool, 
 }
 
 fn op_kinds(layout_kind: u8) -> Vec<PKind> {
-    let mut v = vec![PKind::Set, PKind::Put, PKind::Get, PKind::Get, PKind::Touch, PKind::Maintain, PKind::RoGet, PKind::Ensure];
+    let mut v = vec![PKind::Set, PKind::Put, PKind::Get, PKind::Get, PKind::Touch, PKind::Maintain, PKind::RoGet, PKind::Ensure, PKind::SetOtherFs];
     if layout_kind >= 2 {
         v.extend([PKind::Ensure, PKind::Promote, PKind::Replace]);
     }
@@ -148,5 +148,8 @@ pub fn run(ctx: &Ctx) -> Report {
         }
     }
     crate::stress::phase(ctx, "C01", &mut rep);
+    crate::shim::bypass(|| {
+        let _ = std::fs::remove_dir_all(format!("/var/tmp/kv-xfs-{}", std::process::id()));
+    });
     rep
 }
